@@ -42,6 +42,7 @@ deriving DecidableEq, Repr, Inhabited
 /-- literal constants of the fragment -/
 inductive Const
   | int (i : Int) | str (s : String) | none | true | false
+  | bytes (s : String)                       -- `b'…'` (ASCII content)
 deriving DecidableEq, Repr, Inhabited
 
 /-- the parameter list of a `lambda` / `def` without the default expressions:
